@@ -30,7 +30,7 @@ impl LatLng {
 
     #[allow(clippy::cast_possible_truncation)]
     fn write_lat_lon(output: &mut BitVec<u8, Msb0>, field: f64) -> Result<(), DekuError> {
-        let value = (field * LAT_LONG_FACTOR) as i32;
+        let value = (field * LAT_LONG_FACTOR).round() as i32;
         value.write(output, ())
     }
 }
